@@ -38,6 +38,7 @@ def single(E, rank, op, flags):
     St = setup(E, rank, 3, flags=tuple(flags), positive_g=(op == 'pmf'))
     E.reachable('single')
     apply(St, op, op)
+    apply(St, op, op + '#again')        # a second call on the same object returns the same definition (nothing was consumed or rescaled)
     # canary: the structure factor with a wrong density factor / B2 with a wrong sign must be refuted
     if op == 'structure_factor[norm]':
         S = pyPRISM.calculate.structure_factor(St.P)
